@@ -245,14 +245,26 @@ def reconObs (scn : Json) : Json :=
   let xrd := xrdOf (obj scn "xrd")
   let prev : Option Xrd := if has rc "prev" then some (xrdOf (obj rc "prev")) else none
   let rounds := max 1 (min 2 (nat rc "rounds"))
+  let conds0 : List (String × String) := (arr rc "storedConds").filterMap fun c =>
+    match c.getArr? with
+    | .ok #[.str a, .str b] => some (a, b)
+    | _ => none
   let one (w : Which) : Json :=
-    let stored : Option Crd := match derive w xrd, prev.map (derive w) with
+    -- live: the earlier XRD and its CRDs are gone when the current XRD is reconciled
+    let stored : Option Crd := if bool rc "live" then none else match derive w xrd, prev.map (derive w) with
       | .ok d, some (.ok p) => if p.name == d.name && p.name != "" then some p else none
       | _, _ => none
-    Json.arr ((List.range rounds).map fun i =>
-      match reconcileStep w xrd stored with
-      | .error _ => Json.mkObj [("res", .str "err"), ("crd", .null)]
-      | .ok c => Json.mkObj [("res", .str (if i == 0 && stored.isNone then "requeue" else "ok")), ("crd", crdJson c)]).toArray
+    -- status of the CRD the Apply returns: the stored one's (Update keeps it), none after a Create;
+    -- the API server establishes a CRD that is not established before the next reconcile
+    let rec go (n : Nat) (conds : List (String × String)) : List Json :=
+      match n with
+      | 0 => []
+      | n+1 =>
+        match reconcileStep w xrd stored with
+        | .error _ => Json.mkObj [("res", .str "err"), ("crd", .null)] :: go n conds
+        | .ok c => Json.mkObj [("res", .str (reconcileResult conds)), ("crd", crdJson c)] ::
+                   go n (if isEstablished conds then conds else [("Established", "True")])
+    Json.arr (go rounds (if stored.isSome then conds0 else [])).toArray
   Json.mkObj [("definition", one .xr),
               ("offered", if xrd.claimNames.isSome then one .claim else Json.arr #[])]
 
